@@ -158,15 +158,17 @@ def run(chk):
         flows = gen_flows(rng, chk.tier)
         if f64 and chk.tier == "quick":
             flows = flows[::3]
-        jobs.append(("flow", f64, {"float64": f64, "flow": flows}))
+        for k in range(0, len(flows), 10):          # shards run in parallel child processes
+            jobs.append(("flow", f64, {"float64": f64, "flow": flows[k:k + 10]}))
         props = gen_proposals(rng, chk.tier)
         if f64 and chk.tier == "quick":
             props = props[:2]
         jobs.append(("proposal", f64, {"float64": f64, "proposal": props}))
-    jobs.append(("ins", False, {"float64": False, "ins": gen_ins(rng, chk.tier)}))
+    for c in gen_ins(rng, chk.tier):
+        jobs.append(("ins", False, {"float64": False, "ins": [c]}))
     if chk.tier != "quick":
         jobs.append(("ins", True, {"float64": True, "ins": gen_ins(rng, chk.tier)[:2]}))
-    with ThreadPoolExecutor(max_workers=len(jobs)) as ex:
+    with ThreadPoolExecutor(max_workers=min(len(jobs), 10)) as ex:
         futs = [ex.submit(chk.child, "c08_child.py", (), 1200 if chk.tier == "quick" else 3000, None, json.dumps(j))
                 for _, _, j in jobs]
         results = [f.result() for f in futs]
